@@ -133,7 +133,7 @@ def collect(ctx, prop):
     # side by side, so they cost a few seconds in all
     if only_watch:
         H = []           # other properties (C18: what the watcher and the loader log) use the watched histories only
-    nw = 16 if quick else 160
+    nw = 16 if quick else 80        # every watcher holds an inotify instance for the life of the process (128 per user here)
     bad = [i for i in ids if not (P[i][1] and P[i][2])]
     for n in range(nw):
         docs = [rng.choice(good)] + [rng.choice(ids) if rng.random() < 0.75 else rng.choice(good) for _ in range(rng.choice([2, 3]))]
